@@ -581,6 +581,10 @@ func classifyLoopBody(w *World, fn *ssa.Function, lp rangeLoop, header *ssa.Basi
 			case *ssa.MapUpdate:
 				if definedOutsideLoop(lp, x.Map) && !taint[x.Key] {
 					bad = append(bad, "map insert under a key that does not depend on the iteration element (last one wins) at "+w.instrPos(ins))
+				} else if definedOutsideLoop(lp, x.Map) {
+					if lossy := lossyKeyOf(w, x.Key, taint, 0); lossy != "" {
+						bad = append(bad, fmt.Sprintf("map insert under a key that depends on the iteration element only through %s, which maps different elements to the same key (`AB` and `Ab`): which of two colliding entries stays depends on the iteration order (at %s)", lossy, w.instrPos(ins)))
+					}
 				}
 			case *ssa.Store:
 				if definedOutsideLoop(lp, x.Addr) && taint[x.Val] {
@@ -1082,4 +1086,122 @@ func libraryStateWriter(w *World, f *ssa.Function, depth int, seen map[*ssa.Func
 		}
 	})
 	return why
+}
+
+// lossyKeyOf: the key of a map insert depends on the iteration element, but every such dependence passes through a function that
+// is not injective on names (case folding / case conversion, trimming, replacing): returns that function's name, "" when some
+// dependence is direct (or goes through something the analysis does not classify - then nothing is claimed).
+func lossyKeyOf(w *World, key ssa.Value, taint map[ssa.Value]bool, depth int) string {
+	lossyName := ""
+	var direct func(v ssa.Value, t map[ssa.Value]bool, d int) bool
+	isLossy := func(f *ssa.Function) bool {
+		if f == nil || f.Pkg == nil {
+			return false
+		}
+		p := f.Pkg.Pkg.Path()
+		if strings.HasSuffix(p, "/strcase") {
+			return true
+		}
+		if p == "strings" {
+			switch f.Name() {
+			case "ToLower", "ToUpper", "Title", "ToTitle", "TrimSpace", "Trim", "TrimLeft", "TrimRight", "TrimPrefix", "TrimSuffix", "Replace", "ReplaceAll", "Map", "ToValidUTF8":
+				return true
+			}
+		}
+		return false
+	}
+	// direct: v carries the element's identity without passing a lossy function
+	direct = func(v ssa.Value, t map[ssa.Value]bool, d int) bool {
+		if d > 10 || v == nil || !t[v] {
+			return false
+		}
+		switch x := v.(type) {
+		case *ssa.BinOp:
+			return direct(x.X, t, d+1) || direct(x.Y, t, d+1)
+		case *ssa.Convert:
+			return direct(x.X, t, d+1)
+		case *ssa.ChangeType:
+			return direct(x.X, t, d+1)
+		case *ssa.MakeInterface:
+			return direct(x.X, t, d+1)
+		case *ssa.Phi:
+			for _, e := range x.Edges {
+				if t[e] && !direct(e, t, d+1) {
+					return false
+				}
+			}
+			return true
+		case *ssa.Extract:
+			if c, ok := x.Tuple.(*ssa.Call); ok {
+				return directCall(w, c, x.Index, t, d, isLossy, &lossyName, direct)
+			}
+			return true
+		case *ssa.Call:
+			return directCall(w, x, 0, t, d, isLossy, &lossyName, direct)
+		}
+		return true // a tainted leaf (a member of the element, the map key itself)
+	}
+	if !taint[key] {
+		return ""
+	}
+	if direct(key, taint, depth) {
+		return ""
+	}
+	return lossyName
+}
+
+func directCall(w *World, c *ssa.Call, resIdx int, t map[ssa.Value]bool, d int, isLossy func(*ssa.Function) bool, lossyName *string, direct func(ssa.Value, map[ssa.Value]bool, int) bool) bool {
+	f := c.Call.StaticCallee()
+	if f == nil {
+		return true
+	}
+	if isLossy(f) {
+		*lossyName = f.Pkg.Pkg.Name() + "." + f.Name()
+		return false
+	}
+	if f.Pkg != nil && f.Pkg.Pkg.Path() == "fmt" {
+		// Sprintf: any operand that is direct makes the result direct
+		for _, a := range c.Call.Args {
+			if sl, ok := a.(*ssa.Slice); ok {
+				for _, o := range variadicOperands(sl) {
+					if o != nil && direct(o, t, d+1) {
+						return true
+					}
+				}
+			} else if direct(a, t, d+1) {
+				return true
+			}
+		}
+		return false
+	}
+	if f.Blocks != nil && w.isSubjectFunc(f) {
+		// a helper of the repo: its result in terms of the parameters that receive something derived from the element
+		seeds := map[ssa.Value]bool{}
+		for i, a := range c.Call.Args {
+			if t[a] && i < len(f.Params) {
+				seeds[f.Params[i]] = true
+			}
+		}
+		if len(seeds) == 0 {
+			return true
+		}
+		ht := iterTaintFrom(f, seeds)
+		any := false
+		for _, b := range f.Blocks {
+			ret, ok := b.Instrs[len(b.Instrs)-1].(*ssa.Return)
+			if !ok || resIdx >= len(ret.Results) {
+				continue
+			}
+			rv := ret.Results[resIdx]
+			if !ht[rv] {
+				continue
+			}
+			any = true
+			if !direct(rv, ht, d+1) {
+				return false
+			}
+		}
+		return any || true
+	}
+	return true
 }
